@@ -70,6 +70,13 @@ func c15Enumerate() []gateCase {
 			for pos := 0; pos < n; pos++ {
 				for d := range gen.All14 {
 					out = append(out, gateCase{op: name, n: n, pos: pos, dt: d, nilAt: -1})
+					// ... combined with nil at every optional position (an omitted input in
+					// the middle of the list must not switch the type check off for later ones)
+					for nilAt := ar[0]; nilAt < n; nilAt++ {
+						if nilAt != pos {
+							out = append(out, gateCase{op: name, n: n, pos: pos, dt: d, nilAt: nilAt})
+						}
+					}
 				}
 				if pos >= ar[0] {
 					out = append(out, gateCase{op: name, n: n, pos: -1, nilAt: pos})
@@ -96,7 +103,7 @@ func init() {
 		},
 		Run:            c15Run,
 		Floor:          func(tier string) int { return 5000 },
-		Rule:           "complete enumeration: 55 operators x input count 0..max+2 (Concat 0..6) x each of the 14 element types at each supplied position (other positions carry an allowed type) x nil at each optional position, through Operator.ValidateInputs of a fresh instance from opset13.GetOperator; arities cross-checked against an independent table typed in from the ONNX spec. Then 400 registry cases: every name resolves, repeated lookups are state-independent (a fresh instance prints identically before and after another instance of the same name was Init-ed with non-default attributes and applied), foreign names yield ErrUnsupportedOperator; and single-node models observed through the operator proxy: a rejected gate is never followed by an apply event. A gate case is non-trivial when it is rejected or pads optional inputs; distinct = distinct (op, count, position, dtype, nil position).",
+		Rule:           "complete enumeration: 55 operators x input count 0..max+2 (Concat 0..6) x each of the 14 element types at each supplied position (other positions carry an allowed type) x nil at each optional position (alone and combined with every type probe at every other position), through Operator.ValidateInputs of a fresh instance from opset13.GetOperator; arities cross-checked against an independent table typed in from the ONNX spec. Then 400 registry cases: every name resolves, repeated lookups are state-independent (a fresh instance prints identically before and after another instance of the same name was Init-ed with non-default attributes and applied), foreign names yield ErrUnsupportedOperator; and single-node models observed through the operator proxy: a rejected gate is never followed by an apply event. A gate case is non-trivial when it is rejected or pads optional inputs; distinct = distinct (op, count, position, dtype, nil position).",
 		Exhaustive:     func(tier string) bool { return true },
 		RaceInThorough: true,
 		Technique:      "runtime monitoring: exhaustive enumeration of the finite gate space against the operators' declared constraints and an independent ONNX arity table; proxy trace check 'no apply after a failed validate'",
